@@ -6,18 +6,18 @@ CONSTANTS
   TDiscWait = 5
   TDiscResp = 10
   TCall = 10
-  Configs <- ConnectConfigs
-  MaxEnv = 7
-  MaxFaults = 2
-  Msgs <- ConnectMsgs
+  Configs <- DispConfigs
+  MaxEnv = 3
+  MaxFaults = 0
+  Msgs <- DispMsgs
   MaxChunk = 2
   UseCalls = FALSE
-  UseSubs = FALSE
+  UseSubs = TRUE
   GenMode = TRUE
-  StartConnected = FALSE
+  StartConnected = TRUE
   Grid = 0
   TrackKA = FALSE
-  SubKinds = {"A"}
+  SubKinds = {"A", "*"}
 SPECIFICATION MCSpec
 VIEW mcview
 CONSTRAINT Horizon
